@@ -419,7 +419,10 @@ def check_ring(fx, R, rq):
 
 # ---------------------------------------------------------------------------------------------
 RANGES = {'multiplier_': (1, 10 ** 6), 'integerValue': (-10 ** 8, 10 ** 8), 'squaredIntegerValue': (0, 10 ** 16),
-          'windowSize_': (1, 64), 'windowSize': (1, 64), 'index_': (0, 63)}
+          'windowSize_': (1, 64), 'windowSize': (1, 64), 'index_': (0, 63),
+          # quantifier: |value| / precision <= 1e8, windows of at most 64 samples
+          'sumOfData_': (-64 * 10 ** 8, 64 * 10 ** 8), 'sumOfSquaredData_': (0, 64 * 10 ** 16), 'windowSizeMinusOne_': (0, 63), 'squaredMultiplier_': (1, 10 ** 12)}
+LOCAL_INITS = {}       # id of an integer local -> its initialiser (filled per function; single-assignment locals only)
 
 
 def _ranges(e):
@@ -430,6 +433,17 @@ def _ranges(e):
         return RANGES[e0['name']]
     if e0['k'] == 'Ref' and e0['name'] in RANGES:
         return RANGES[e0['name']]
+    if e0['k'] == 'MCall' and e0.get('m') == 'size' and not e0.get('args') and strip_casts(e0['obj']).get('k') == 'Member' and strip_casts(e0['obj']).get('name') == 'data_':
+        return (0, 64)
+    if e0['k'] in ('Op', 'Index') and e0.get('op') in ('[]', None) and e0.get('args') and strip_casts(e0['args'][0]).get('k') == 'Member' and strip_casts(e0['args'][0]).get('name') == 'data_':
+        return (-10 ** 8, 10 ** 8)
+    if e0['k'] == 'Ref' and e0.get('id') in LOCAL_INITS:
+        init = LOCAL_INITS[e0['id']]
+        LOCAL_INITS.pop(e0['id'])                    # no recursion through itself
+        try:
+            return eint.interval(init, _ranges, [])
+        finally:
+            LOCAL_INITS[e0['id']] = init
     return None
 
 
@@ -446,6 +460,18 @@ def check_widths(fx, R):
     n_nodes = 0
     for f in targets + ctors:
         R.used(f)
+        LOCAL_INITS.clear()
+        assigned = {}
+        for x in walk(f.get('body')):
+            if x.get('k') == 'Bin' and x.get('op') in ('=', '+=', '-=', '*=', '/=') and strip_casts(x['l']).get('k') == 'Ref':
+                assigned[strip_casts(x['l'])['id']] = True
+            if x.get('k') == 'Un' and x.get('op') in ('++', '--') and strip_casts(x['e']).get('k') == 'Ref':
+                assigned[strip_casts(x['e'])['id']] = True
+        for x in walk(f.get('body')):
+            if x.get('k') == 'Decl':
+                for v in x['vars']:
+                    if v.get('init') is not None and v['t'].get('c') == 'int' and v['id'] not in assigned:
+                        LOCAL_INITS[v['id']] = v['init']
         nodes = []
         for x in walk(f.get('body')):
             if x.get('k') == 'Bin' and x['op'] in ('*', '+', '-') and x['t'].get('c') == 'int':
@@ -476,6 +502,8 @@ def check_widths(fx, R):
             else:
                 rng = eint.interval(x, _ranges, findings)
                 if rng is None:
+                    if x['op'] == '*' and (x['t'].get('bits') or 0) >= 32:
+                        R.undecided('S4', '%s:%s' % (short_fn(f['q']), pp(x)[:80]), 'integer product whose operand ranges are not known to this rule: overflow not decided')
                     continue
                 n_nodes += 1
                 inst = '%s:%s' % (short_fn(f['q']), pp(x))
